@@ -78,8 +78,12 @@ func (s *scripted) Merge(old []byte) ([]byte, error) {
 
 func (s *scripted) Clean(old []byte) ([]byte, error) {
 	// Clean is called for a stored key: identify it by its value (values are unique per key)
+	if len(old) == 0 {
+		// zero-length stored values cannot be told apart: all of them carry the decision Delete
+		return nil, nil
+	}
 	for _, e := range s.tab {
-		if e.Stored != nil && bytes.HasPrefix(old, e.Stored) {
+		if len(e.Stored) > 0 && bytes.HasPrefix(old, e.Stored) {
 			return s.decide(e.Clean, old, e), nil
 		}
 	}
@@ -216,7 +220,7 @@ func C19() *runner.Property {
 		Level: "exploration",
 		Rule: "a scripted strategy.Iterator answers Merge/Clean from a decision table (keep/replace/delete/append-to-argument) and the real Update, IterUpdate and EmptyPut run in real LMDB write transactions; the resulting DBI content (read back in LMDB's own order) must equal a map model applying the same table in the DBI's order " +
 			"(bytewise or unsigned native integer). Exhaustive: every assignment of {stored-only, input-only, both} x decision to up to N keys (N=4 quick, 5 thorough) for byte keys, 4- and 8-byte integer keys (key sets include 0, 255/256, 2^31, 2^32-1, 2^63+); " +
-			"random: templates (disjoint, identical, interleaved, subset, superset, common prefixes, one side empty, all before/after) up to thousands of keys of 1-511 bytes with 0x00/0xff; disorder: unsorted and duplicate inputs must be rejected or still give the model content. " +
+			"random: templates (disjoint, identical, interleaved, subset, superset, common prefixes, one side empty, all before/after) up to thousands of keys of 1-511 bytes with 0x00/0xff, stored values incl. zero-length ones; disorder: unsorted and duplicate inputs must be rejected or still give the model content. " +
 			"Non-trivial = stored and input overlap partially, or the DBI is integer-keyed; distinct by case parameters and assignment index.",
 		Assumptions: []string{"the iterator honours the interface contract (never returns an empty non-nil slice)", "little-endian host (the big-endian comparison branch is not reachable here)"},
 		BatchSize:   6,
@@ -568,6 +572,12 @@ func runC19(c runner.Case, env *runner.Env) (res runner.Result) {
 				}
 				if stored {
 					en.Stored = append([]byte(fmt.Sprintf("S%d-", j)), r.Bytes(r.Intn(10))...)
+					if r.Chance(1, 6) {
+						// a zero-length stored value (LMDB stores those fine); an empty merge result still means delete
+						en.Stored = []byte{}
+						en.Clean = Delete
+						res.Count("stored_zero_length_values", 1)
+					}
 				}
 				if in {
 					if !stored && en.Merge == Delete {
